@@ -40,7 +40,7 @@ CLAIMED.update({
     'C01': dict(
         text='Deductive proof of the per-account pull limit: the account leaves give min(needed, max(0, balance + granted overdraft - amount this statement already queued from '
              'the same account)) with that amount proved equal to the sum over the sender queue (alreadySent), @world / unbounded overdraft exempt; save never raises a balance; '
-             'each posting moves the cached balances by exactly its amount (getPostings step assertion).',
+             'each posting moves the cached balances by exactly its amount (getPostings step assertion); the balance a statement starts from is the store\'s: every (account, asset) a statement needs is put into the batch (batchQuery), asked for and merged coherently (runBalancesQuery, findBalancesQueries; clauses shared with C09/C10).',
         note='The statement/script level composition (floor invariant over the whole run, prefix form) is an argument over these contracts in DESIGN.md, not machine-checked.',
         ref='DESIGN.md section 5 C01'),
     'C07': dict(
@@ -55,7 +55,7 @@ CLAIMED.update({
         ref='DESIGN.md section 5 C08'),
     'C09': dict(
         text='Deductive proof of the state transformer of a statement: getPostings applies each posting to exactly the two cells concerned and leaves other assets alone, runStatement resets the '
-             'queues before use, metadata setters override key by key and keep all other keys, save leaves the queues alone.',
+             'queues before use, metadata setters override key by key and keep all other keys, save leaves the queues alone; all balances a script needs are requested before its first statement runs, whatever the number of assets per account (preload clauses shared with C10).',
         note='The two-run equation itself is a corollary argued in DESIGN.md (fold over a concatenation), not machine-checked.',
         ref='DESIGN.md section 5 C09'),
     'C10': dict(
